@@ -220,7 +220,7 @@ def model_table(seed: int) -> Table:
     tb.add_val('r1', T_MATRIX, ('r',) + tuple(fh(x) for x in pick(
         (1, 0, 0, 0, 1, 0, 0, 0, 1), (0, 1, 0, -1, 0, 0, 0, 0, 1), (0.5, 0.25, 0, 2, 1, -1, 0, 0, 4))))
     tb.add_val('r2', T_MATRIX, ('r',) + tuple(fh(x) for x in (0, 0, 1, 0, 1, 0, -1, 0, 0)))
-    tb.add_val('sp1', T_STRING, ('s', pick('plain', 'models/props/x.mdl', '')))
+    tb.add_val('sp1', T_STRING, ('s', pick('plain', 'models/props/x.mdl', ' ')))
     tb.add_val('sp2', T_STRING, ('s', pick('two words', ' lead and trail ', '0')))
     tb.add_val('sq1', T_STRING, ('s', pick('a"b\\c\n\td', 'say "hi"', 'back\\slash\\n')))
     tb.add_val('sq2', T_STRING, ('s', pick("it's {[x]},\r", 'line1\r\nline2', '\\')))
@@ -230,7 +230,7 @@ def model_table(seed: int) -> Table:
                  ('nq', pick('na"me\\', 'n\tq', 'q\n"')), ('nU', pick('näme', 'ж', 'n\U0001F600')),
                  ('tq', pick('Dme"T', 'T\\x', 'T y')), ('tU', pick('Dmé', 'ÜT', 'T€')),
                  ('aq', pick('at"tr', 'a\\t', 'a\rb')), ('aU', pick('attré', 'å', 'kü')),
-                 ('nC', 'NameCased'),
+                 ('nC', 'NameCased'), ('nE', ''), ('nR', pick('named again', 'Re-Added', 'r')),
                  ('Ax', pick('Alpha_x', 'Position', 'A')), ('bY', pick('betaY', 'mixedCase', 'b')),
                  ('Cz', pick('CamelZ', 'UPPER', 'Cc')), ('dW', pick('deltaW', 'lower_d', 'dd')), ('name', 'name')):
         tb.add_text(s, x)
@@ -325,6 +325,24 @@ class World:
             else:
                 self.el['u2'].type = tb.text[tn]
                 self.el['u1'][tb.text[a['nn']]] = self.el['u2']
+        elif op == 'nameplace':
+            p = a['place']
+            root, kid = self.el['u1'], self.el['u2']
+            target = root if p[0] == 'r' else kid
+            # the three public ways to take the name attribute out of the mapping
+            if p in ('rdel', 'cdel', 'readd'):
+                del target['name']
+            elif p in ('rpop', 'rreadd', 'creadd'):
+                target.pop('name')
+            else:
+                target.clear()
+            if p in ('rdel', 'readd'):
+                root[tb.text[a['nn']]] = make(T_INT, tb.val['i1'][1])
+            else:
+                kid[tb.text['Ax']] = make(T_INT, tb.val['i2'][1])
+                root[tb.text[a['nn']]] = kid
+            if p in ('readd', 'rreadd', 'creadd'):
+                target.name = tb.text['nR']          # a member again, now behind the other attributes
         else:
             raise ValueError(op)
 
@@ -378,9 +396,19 @@ def proj_graph(root: Element, tb: Table) -> dict:
     return {'root': seen[id(root)], 'el': el}
 
 
-def build_direct(g: dict, tb: Table) -> Element:
-    """Real Elements for a symbolic graph (random tier and replays)."""
+def build_direct(g: dict, tb: Table, nameops: dict | None = None) -> Element:
+    """Real Elements for a symbolic graph (random tier and replays).  nameops: element -> how its
+    name attribute is taken out of the mapping ('del', 'pop', 'clear'; the graph then says name "")
+    or 'readd' (taken out, set again after the other attributes: same name, other position)."""
     w = World(tb, g)
+    nameops = nameops or {}
+    for u, how in nameops.items():
+        if how == 'clear':
+            w.el[u].clear()
+        elif how == 'pop':
+            w.el[u].pop('name')
+        else:
+            del w.el[u]['name']
     for u in w.order:
         for a in g['el'][u]['attrs']:
             name = tb.text[a['n']]
@@ -391,6 +419,9 @@ def build_direct(g: dict, tb: Table) -> Element:
                     w.el[u][name] = w.target(a['v'][0])
             else:
                 w.el[u][name] = w.value_attr(name, a['t'], a['arr'], a['v'])
+    for u, how in nameops.items():
+        if how == 'readd':
+            w.el[u].name = tb.text[g['el'][u]['name']]
     return w.el[g['root']]
 
 
@@ -817,9 +848,16 @@ def random_cases(out: hlib.RecWriter, rng: random.Random, n_cases: int, stats: d
                     vals = [val_sym(t, random_value(rng, t, kind)) for _ in range(ln)]
                 attrs.append({'n': text_sym(nm), 't': t, 'arr': arr, 'v': vals})
             el[u] = {'type': text_sym(ty), 'name': text_sym(rng.choice(pool)), 'attrs': attrs}
+        nameops = {}
+        for u in us:
+            if rng.random() < 0.2:       # the name attribute is an optional member like any other
+                nameops[u] = rng.choice(['del', 'pop', 'clear', 'readd'])
+                if nameops[u] != 'readd':
+                    el[u]['name'] = text_sym('')
         g = {'root': 'u1', 'el': el}
-        root = build_direct(g, tb)
+        root = build_direct(g, tb, nameops)
         rec = round_trip(root, g, enc, uni, tb, 'random')
+        rec['nameops'] = nameops
         syms = set(tb.val) | set(tb.text) | set(tb.uid)
         rec['conc'] = tb.dump(syms)
         out.write(rec)
@@ -935,7 +973,18 @@ def main() -> None:
         out = hlib.RecWriter(sys.argv[3])
         if rec['k'] == 'rt':
             tb = Table.load(rec['conc']) if 'conc' in rec else model_table(rec.get('seed', 0))
-            new = round_trip(build_direct(rec['g'], tb), rec['g'], rec['enc'], rec['uni'], tb, rp.get('src', 'replay'))
+            if 'hist' in rec and 'conc' not in rec:
+                # a model case: rebuild it through the same public calls, from the model's initial graph
+                g0 = {'root': rec['g']['root'],
+                      'el': {u: {'name': {'u1': 'np1', 'u2': 'np2'}.get(u, 'np3'), 'type': 'tp2' if u == 'u2' else 'tp1', 'attrs': []}
+                             for u in rec['g']['el']}}
+                w = World(tb, g0)
+                for a in rec['hist']:
+                    w.apply(a)
+                root = w.el[w.root]
+            else:
+                root = build_direct(rec['g'], tb, rec.get('nameops'))
+            new = round_trip(root, rec['g'], rec['enc'], rec['uni'], tb, rp.get('src', 'replay'))
             out.write(new)
         elif rec['k'] == 'build':
             tb = model_table(rec.get('seed', 0))
